@@ -60,6 +60,11 @@ type ReplayFile struct {
 	HB       bool   `json:"hb"`
 	sim.Choices
 	PRNG  bool           `json:"prng,omitempty"` // choices are regenerated from (seed, run) instead of being listed (crashed runs)
+	// CarryFrom is the first run the reporting process executed; Carry asks the replay to execute the runs CarryFrom..Run-1
+	// (from the PRNG) in the same process before Run itself: a violation that needs what the system under test keeps in
+	// process-global memory across Router instances does not occur in a process that executes Run alone.
+	CarryFrom int  `json:"carry_from"`
+	Carry     bool `json:"carry,omitempty"`
 	Hash  uint64         `json:"event_log_hash"`
 	Case  map[string]any `json:"case"`
 	Stack string         `json:"stack,omitempty"`
@@ -234,7 +239,7 @@ func main() {
 				file := fmt.Sprintf("%s/%s-seed%d-run%d-race.json", *rdir, p.ID, *seed, i)
 				res.Case["race_report"] = report
 				if *rdir != "" {
-					writeJSON(file, ReplayFile{Property: p.ID, Class: p.ID + "/data-race", Detail: detail, Seed: *seed, Run: i, HB: true,
+					writeJSON(file, ReplayFile{Property: p.ID, Class: p.ID + "/data-race", Detail: detail, Seed: *seed, Run: i, CarryFrom: *from, HB: true,
 						Choices: rec.Values(), Hash: res.Hash, Case: res.Case})
 				}
 				rep.Violations = append(rep.Violations, Violation{Run: i, Class: p.ID + "/data-race", Detail: detail, Replay: file, From: rec.Log.Len(), Shrunk: rec.Log.Len()})
@@ -248,7 +253,7 @@ func main() {
 			file := fmt.Sprintf("%s/%s-seed%d-run%d.json", *rdir, p.ID, *seed, i)
 			if *rdir != "" {
 				// durable before shrinking starts
-				writeJSON(file, ReplayFile{Property: p.ID, Class: res.Class, Detail: res.Detail, Seed: *seed, Run: i, HB: sim.RaceEnabled,
+				writeJSON(file, ReplayFile{Property: p.ID, Class: res.Class, Detail: res.Detail, Seed: *seed, Run: i, CarryFrom: *from, HB: sim.RaceEnabled,
 					Choices: vals, Hash: res.Hash, Case: res.Case, Stack: res.Stack})
 				v.Replay = file
 				v.Shrunk = vals.Len()
@@ -285,7 +290,7 @@ func main() {
 				fr = runFn(rp, o2)
 			}
 			if *rdir != "" {
-				writeJSON(file, ReplayFile{Property: p.ID, Class: fr.Class, Detail: fr.Detail, Seed: *seed, Run: i, HB: sim.RaceEnabled,
+				writeJSON(file, ReplayFile{Property: p.ID, Class: fr.Class, Detail: fr.Detail, Seed: *seed, Run: i, CarryFrom: *from, HB: sim.RaceEnabled,
 					Choices: best, Hash: fr.Hash, Case: fr.Case, Stack: fr.Stack})
 				v.Replay = file
 			}
@@ -414,7 +419,14 @@ func doReplay(p *props.Prop, runFn func(sim.Source, props.Opts) *props.Result, o
 	rp := &sim.Replay{Vals: rf.Choices, Strict: true}
 	opts.Trace = true
 	var res *props.Result
-	if rf.PRNG {
+	if rf.Carry {
+		quiet := opts
+		quiet.Trace = false
+		for i := rf.CarryFrom; i < rf.Run; i++ {
+			runFn(sim.NewPRNG(sim.Mix(rf.Seed, uint64(i), hashID(p.ID))), quiet)
+		}
+	}
+	if rf.PRNG || rf.Carry {
 		res = runFn(sim.NewPRNG(sim.Mix(rf.Seed, uint64(rf.Run), hashID(p.ID))), opts)
 	} else {
 		res = runFn(rp, opts)
@@ -444,7 +456,7 @@ func doReplay(p *props.Prop, runFn func(sim.Source, props.Opts) *props.Result, o
 		fmt.Fprintf(os.Stderr, "REPLAY-CLEAN property=%s (the recorded violation %s did not occur)\n", p.ID, rf.Class)
 		return 0
 	}
-	same := res.Class == rf.Class && (res.Hash == rf.Hash || rf.PRNG)
+	same := res.Class == rf.Class && (res.Hash == rf.Hash || rf.PRNG || rf.Carry)
 	fmt.Fprintf(os.Stderr, "REPLAY-VIOLATION property=%s class=%s same_class=%v same_event_log=%v\n%s\n", p.ID, res.Class, res.Class == rf.Class, res.Hash == rf.Hash, res.Detail)
 	if res.Stack != "" {
 		fmt.Fprintln(os.Stderr, res.Stack)
